@@ -26,7 +26,7 @@ ASSUMPTIONS = P.ASSUMPTIONS_COMMON + [
     'options); statistics are the same symbolic variables in all three runs',
 ]
 BOUNDS = {
-    'quick': {'pairs': 'two triples of subgraphs; independent; sharing a constant buffer; equal '
+    'quick': {'pairs': '8 seeded pairs of random DAG subgraphs; unnamed / equally named subgraphs; same constant name in non-adjacent subgraphs; two triples of subgraphs; independent; sharing a constant buffer; equal '
               'structure with different names; insertion-heavy in both',
               'recipes': 'shipped + selective per op'},
     'thorough': {'pairs': 'same + 3 subgraphs + 60 seeded pairs of random '
@@ -366,10 +366,13 @@ def job_pair(job):
 def jobs(tier, seed):
   js = []
   pairs = dict(PAIRS)
+  import os
+  rnd = _random_pairs(int(os.environ.get('VERIF_SEED', '0')), 60)
   if tier == 'thorough':
     pairs.update(PAIRS_THOROUGH)
-    import os
-    pairs.update(_random_pairs(int(os.environ.get('VERIF_SEED', '0')), 60))
+    pairs.update(rnd)
+  else:
+    pairs.update({k: rnd[k] for k in list(rnd)[:8]})
   for name, pair in pairs.items():
     names = list(pair_recipes(pair, tier))
     for i in range(0, len(names), 4):
